@@ -97,6 +97,10 @@ def main():
             meta["checks"][p] = {"tier": tier, "exit": rr.returncode, "caught": rr.returncode == 1, "by": kinds, "lines": lines[:10], "summary": summ[-1:] }
         out = ROOT / "seeded" / sid
         out.mkdir(parents=True, exist_ok=True)
+        if (out / "meta.json").exists():
+            prev = json.loads((out / "meta.json").read_text())
+            meta["checks_initial"] = prev.get("checks_initial") or prev.get("checks")   # before the checks were strengthened
+            meta["needs"] = prev.get("needs", "")
         shutil.copy(seed_dir / patch, out / "patch.diff")
         shutil.copy(seed_dir / demo, out / "demo.py")
         meta["what_was_run"] = ("scratch worktree of /repo HEAD; demo on clean tree and with patch.diff applied; repository test suite with the patch "
